@@ -7,7 +7,8 @@ against that worktree (VERIF_REPO) and records everything in /verif/seeded/<name
 import json, os, shutil, subprocess, sys, time
 pid, src = sys.argv[1], os.path.abspath(sys.argv[2])
 suite = "--suite" in sys.argv
-name = f"{pid}-{os.path.basename(src.rstrip('/'))}"
+rnd = "r2-" if "/mut2_" in src else ("r3-" if "/mut3_" in src else "")
+name = f"{pid}-{rnd}{os.path.basename(src.rstrip('/'))}"
 wt = f"/tmp/seed_eval_{pid}_{os.getpid()}"
 def sh(cmd, **kw):
     p = subprocess.run(cmd, shell=True, stdout=subprocess.PIPE, stderr=subprocess.STDOUT, text=True, **kw)
